@@ -91,7 +91,7 @@ func (w XY) Unit() XY {
 
 // Length treats XY as a vector, and returns its length.
 func (w XY) Length() float64 {
-	return math.Sqrt(w.lengthSq())
+	return math.Hypot(w.X, w.Y)
 }
 
 // lengthSq treats XY as a vector, and returns its squared length.
